@@ -38,9 +38,15 @@ def handleC11 : Handler := fun comp a impl =>
     some { model := Hex.ofBytes m, verdict := v }
   | "flv.read", [b] =>
     let bb := hex! b
+    -- oracle: one answer however the bytes arrive; a tag the specification reader reads is read, with its sizes
+    let v := if impl.startsWith "byte-by-byte:" || impl.startsWith "pieces-of-7:" then "bad:answer-depends-on-how-the-bytes-arrive"
+      else match FlvSpec.readTag bb with
+        | some (t, rest) =>
+          if impl == s!"ok {t.typ.toNat} {t.payload.length} {t.ts} {t.payload.length + 15} {rest.length}" then "ok" else "bad:valid-tag-not-read-back"
+        | none => "ok"
     match Flv.readTag bb with
-    | none => some { model := "err" }
-    | some (h, raw, rest) => some { model := s!"ok {h.typ.toNat} {h.dataSize} {h.ts} {raw.length} {rest.length}" }
+    | none => some { model := "err", verdict := v }
+    | some (h, raw, rest) => some { model := s!"ok {h.typ.toNat} {h.dataSize} {h.ts} {raw.length} {rest.length}", verdict := v }
   | "flv.file", [ts] =>
     let tags := tagsArg ts
     let file := Gen.flvHeader ++ tags.flatMap fun (t, ts, p) => Flv.packTag t ts p
